@@ -321,6 +321,12 @@ def newline_hits(ap):
             other = cn[2] if cn[3] == ('c', 10) else cn[3]
             if sym.mentions(other, lambda v: v == ('g', '@cfg_yytext')):
                 n += 1
+    # a search for the next newline that found one: strchr(<place in the text>, '\\n') != NULL
+    from .. import failpaths as _fp
+    for e in ap.events:
+        if e.kind == 'call' and e.name in ('strchr', 'memchr') and len(e.args) > 1 and e.args[1] == ('c', 10) and sym.mentions(e.args[0], lambda v: v == ('g', '@cfg_yytext')):
+            if any((lambda na: na is not None and na[0] == e.res and na[1] is False)(_fp.is_null_assumption(cn, t)) for cn, t, _ in ap.path.assume):
+                n += 1
     return n
 
 
